@@ -222,6 +222,9 @@ Definition sp_run (ops : list op) : sp * sp := fold_left sp_step ops (sp_empty, 
 Definition abs (es : list entry) : sp :=
   fun x => match find x es with Some e => Some (etag e, evals e) | None => None end.
 
+(* the predicate family used by the correspondence harness: (a*k + b*v) mod m == r *)
+Definition lin_pred (a b m r : Z) : Z -> Z -> bool := fun k v => ((a * k + b * v) mod m) =? r.
+
 (* ================================================================ proofs *)
 Definition keys (es : list entry) : list Z := map ekey es.
 
@@ -432,6 +435,11 @@ Proof. induction l; simpl; auto. destruct (f a); simpl; lia. Qed.
 
 Lemma rm_if_length p l : (length (rm_if p l) + length (filter p l) = length l)%nat.
 Proof. rewrite (Permutation_length (rm_if_perm p l)). pose proof (filter_split_length p l). lia. Qed.
+
+Lemma rm_if_spec p l :
+  Permutation (rm_if p l) (filter (fun v => negb (p v)) l) /\
+  (length (rm_if p l) + length (filter p l) = length l)%nat.
+Proof. split; [apply rm_if_perm|apply rm_if_length]. Qed.
 
 (* ---------------------------------------------------------------- invariant of one container *)
 Definition Inv (M : Z) (m : mm) : Prop :=
